@@ -1,26 +1,49 @@
-//! C13: drives dasp_signal::bus::{Bus, Output} through send / next / pending_frames / drop sequences.
-//! Input line:  ops separated by ','   `s` (bus.send()), `n i` (outputs[i].next()),
-//!              `p i` (outputs[i].pending_frames()), `d i` (drop(outputs[i])),
-//!              `R i n` (n consecutive outputs[i].next(); compact report for long runs)
+//! C13: drives dasp_signal::bus::{Bus, Output} through send / next / pending_frames / is_exhausted / drop sequences.
+//! Input line:  [`K kind L ;`] ops separated by ','
+//!   `s` (bus.send()), `n i` (outputs[i].next()), `p i` (outputs[i].pending_frames()), `d i` (drop(outputs[i])),
+//!   `e i` (outputs[i].is_exhausted()), `b` (drop(bus): the Bus handle goes away, the outputs stay),
+//!   `R i n` (n consecutive outputs[i].next(); compact report for long runs)
 //! The i-th output ever returned by `send` lives in slot i (None once dropped).
-//! Source: `signal::gen_mut` closure yielding 1000 + (number of earlier pulls); the pull counter is shared.
+//! Sources (every one wrapped in `Counted`, a Signal that counts `next` calls and forwards `is_exhausted`):
+//!   kind 0: `signal::gen_mut` yielding 1000 + k (endless)
+//!   kind 1: `signal::from_iter` of the L frames 1000 + k
+//!   kind 2: `signal::gen_mut(5000 + 7k).add_amp(signal::from_iter of the L frames 100 + k)`
 //! Output: one observation per op, joined by ';':
-//!   `1 slot` send | `2 frame` next | `3 n` pending | `4` drop | `9` slot empty/unknown (no API call possible)
+//!   `1 slot` send | `2 frame` next | `3 n` pending | `4` drop | `6 b` is_exhausted | `7` bus dropped
+//!   | `9` slot empty/unknown or bus handle gone (no API call possible)
 //!   | `5 first last breaks` run of n next (first/last frame, -1 if n = 0; breaks = number of positions where
 //!     a frame is not its predecessor + 1)
-//!   | `8 code` panic, each followed by: pulls  backlog(hook)  pending of every slot (-1 = dropped)
-use dasp_signal::bus::{Output, SignalBus};
+//!   | `8 code` panic, each followed by: pulls  backlog(hook; -3 once the Bus handle is dropped)
+//!     pending of every slot (-1 = dropped), and for kinds 1, 2: is_exhausted of every slot (-1 = dropped)
+use dasp_signal::bus::{Bus, Output, SignalBus};
 use dasp_signal::{self as signal, Signal};
 use dasp_verif_harness::*;
 use std::cell::Cell;
 use std::rc::Rc;
 
-fn drive<S>(src: S, pulls: Rc<Cell<i64>>, ops: &str) -> String
+struct Counted<S> {
+    inner: S,
+    pulls: Rc<Cell<i64>>,
+}
+
+impl<S: Signal> Signal for Counted<S> {
+    type Frame = S::Frame;
+    fn next(&mut self) -> S::Frame {
+        self.pulls.set(self.pulls.get() + 1);
+        self.inner.next()
+    }
+    fn is_exhausted(&self) -> bool {
+        self.inner.is_exhausted()
+    }
+}
+
+fn drive<S>(inner: S, kind: i64, ops: &str) -> String
 where
     S: Signal<Frame = i64>,
 {
-    let bus = src.bus();
-    let mut outs: Vec<Option<Output<S>>> = Vec::new();
+    let pulls = Rc::new(Cell::new(0i64));
+    let mut bus: Option<Bus<Counted<S>>> = Some(Counted { inner, pulls: pulls.clone() }.bus());
+    let mut outs: Vec<Option<Output<Counted<S>>>> = Vec::new();
     let mut res = Vec::new();
     for op in ops.split(',') {
         let t: Vec<&str> = op.split_whitespace().collect();
@@ -30,12 +53,22 @@ where
         let i = if t.len() > 1 { t[1].parse::<usize>().unwrap() } else { 0 };
         let live = i < outs.len() && outs[i].is_some();
         let head = match t[0] {
-            "s" => match catch(|| bus.send()) {
-                Ok(o) => {
-                    outs.push(Some(o));
-                    vec![1, outs.len() as i64 - 1]
-                }
-                Err(c) => vec![8, c],
+            "s" => match bus.as_ref() {
+                Some(b) => match catch(|| b.send()) {
+                    Ok(o) => {
+                        outs.push(Some(o));
+                        vec![1, outs.len() as i64 - 1]
+                    }
+                    Err(c) => vec![8, c],
+                },
+                None => vec![9],
+            },
+            "b" => match bus.take() {
+                Some(b) => match catch(move || drop(b)) {
+                    Ok(()) => vec![7],
+                    Err(c) => vec![8, c],
+                },
+                None => vec![9],
             },
             "n" if live => match catch(|| outs[i].as_mut().unwrap().next()) {
                 Ok(x) => vec![2, x],
@@ -43,6 +76,10 @@ where
             },
             "p" if live => match catch(|| outs[i].as_ref().unwrap().pending_frames()) {
                 Ok(x) => vec![3, x as i64],
+                Err(c) => vec![8, c],
+            },
+            "e" if live => match catch(|| outs[i].as_ref().unwrap().is_exhausted()) {
+                Ok(x) => vec![6, x as i64],
                 Err(c) => vec![8, c],
             },
             "d" if live => {
@@ -56,15 +93,15 @@ where
                 let n = t[2].parse::<usize>().unwrap();
                 let o = outs[i].as_mut().unwrap();
                 match catch(|| {
-                    let (mut first, mut last, mut breaks) = (-1i64, -1i64, 0i64);
+                    let (mut first, mut last, mut breaks, mut started) = (-1i64, -1i64, 0i64, false);
                     for _ in 0..n {
                         let x = o.next();
-                        if first < 0 {
+                        if !started {
                             first = x;
-                        }
-                        if last >= 0 && x != last + 1 {
+                        } else if x != last + 1 {
                             breaks += 1;
                         }
+                        started = true;
                         last = x;
                     }
                     (first, last, breaks)
@@ -73,14 +110,17 @@ where
                     Err(c) => vec![8, c],
                 }
             }
-            "n" | "p" | "d" | "R" => vec![9],
+            "n" | "p" | "d" | "R" | "e" => vec![9],
             other => panic!("unknown op {}", other),
         };
         let mut v = head;
         v.push(pulls.get());
-        v.push(match catch(|| bus.verif_backlog_len()) {
-            Ok(n) => n as i64,
-            Err(_) => -7,
+        v.push(match bus.as_ref() {
+            Some(b) => match catch(|| b.verif_backlog_len()) {
+                Ok(n) => n as i64,
+                Err(_) => -7,
+            },
+            None => -3,
         });
         for o in outs.iter() {
             v.push(match o {
@@ -91,20 +131,45 @@ where
                 },
             });
         }
+        if kind != 0 {
+            for o in outs.iter() {
+                v.push(match o {
+                    None => -1,
+                    Some(o) => match catch(|| o.is_exhausted()) {
+                        Ok(b) => b as i64,
+                        Err(c) => -10 - c,
+                    },
+                });
+            }
+        }
         res.push(join(&v));
     }
     res.join(";")
 }
 
+fn counter(base: i64, step: i64) -> impl FnMut() -> i64 {
+    let mut k = 0i64;
+    move || {
+        let x = base + step * k;
+        k += 1;
+        x
+    }
+}
+
 fn main() {
     serve(|line| {
-        let pulls = Rc::new(Cell::new(0i64));
-        let p2 = pulls.clone();
-        let src = signal::gen_mut(move || {
-            let k = p2.get();
-            p2.set(k + 1);
-            1000 + k
-        });
-        drive(src, pulls, line)
+        let (kind, l, ops) = match line.find(';') {
+            Some(p) => {
+                let h: Vec<&str> = line[..p].split_whitespace().collect();
+                (h[1].parse::<i64>().unwrap(), h[2].parse::<i64>().unwrap(), &line[p + 1..])
+            }
+            None => (0, 0, line),
+        };
+        match kind {
+            0 => drive(signal::gen_mut(counter(1000, 1)), kind, ops),
+            1 => drive(signal::from_iter((0..l).map(|k| 1000 + k)), kind, ops),
+            2 => drive(signal::gen_mut(counter(5000, 7)).add_amp(signal::from_iter((0..l).map(|k| 100 + k))), kind, ops),
+            other => panic!("unknown source kind {}", other),
+        }
     });
 }
